@@ -7,7 +7,7 @@ mkdir -p gen bin
 model=$1; driver=$2; out=$3
 cp ../coq/$model.ml ../coq/$model.mli gen/
 mod=$(echo "$model" | sed 's/^\(.\)/\U\1/')
-{ echo "open $mod"; cat zglue.ml; cat "$driver"; } > gen/${out}_main.ml
+{ echo "open $mod"; cat zglue.ml; cat bglue.ml; cat "$driver"; } > gen/${out}_main.ml
 cd gen
-ocamlfind ocamlopt -O3 -w -a -package str $model.mli $model.ml ${out}_main.ml -o ../bin/$out 2>/dev/null || \
-ocamlfind ocamlopt -w -a $model.mli $model.ml ${out}_main.ml -o ../bin/$out
+ocamlfind ocamlopt -O3 -unboxed-types 2>/dev/null -w -a -package str -linkpkg $model.mli $model.ml ${out}_main.ml -o ../bin/$out 2>/dev/null || \
+ocamlfind ocamlopt -w -a -package str -linkpkg $model.mli $model.ml ${out}_main.ml -o ../bin/$out
